@@ -109,6 +109,7 @@ def check_cases(cases: list[dict], rep: Report, known: dict) -> None:
                 val2 = call(lambda: sm.Partial(se, y).at(p))
                 sem.append((dict(c, p=ptxt, order=2, y=y, sexpr=repr(se)[:600]), f"fwd2 {x} {y} {c['e']} {ptxt}", f"fwd {y} {stxt} {ptxt}"))
                 ncs.append(NumCase(None, f"fwd {y} {stxt} {ptxt}", val2, dict(c, p=ptxt, order=2, y=y, impl=repr(val2))))
+    raw_symbolic_tie(cases, rep)
     judge_expr(ecs, rep)
     judge_numeric(ncs, rep)
     for ec in ecs:
@@ -181,6 +182,46 @@ def check_cases(cases: list[dict], rep: Report, known: dict) -> None:
             continue
         what = "value of the symbolic derivative" if info["order"] == 1 else "second-order partial obtained from the symbolic derivative"
         rep.violation(f"{what} is wrong or undefined at a point of the original's domain: truth {sb[jf]}, symbolic {sb[of]}", info)
+
+
+def raw_symbolic_tie(cases: list[dict], rep: Report) -> None:
+    """the un-simplified symbolic derivatives, forward (`_synthetic_partial`) and reverse
+    (`_synthetic_partials`), against the model's `symFwd` / `syntheticPartials` trees"""
+    ecs = []
+    b = Batch()
+    rev = []
+    for c in cases:
+        e = wire.build_raw(c["e"])
+        fwd = call(lambda: e._synthetic_partial(c["x"]))
+        ecs.append(ExprCase((c["e"], c["x"], "raw-forward"), f"symfwd {c['x']} {c['e']}", fwd,
+                            dict(c, impl=repr(fwd)[:500]), pre=0))
+        if c["route"] == "FE":
+            r = call(lambda: wire.build_raw(c["e"])._synthetic_partials())
+            rev.append((c, r, b.ask(f"F0 symrev {c['e']}")))
+    judge_expr(ecs, rep)
+    for ec in ecs:
+        rep.count("raw-symbolic", "forward:" + ec.verdict)
+        if ec.verdict == "mismatch":
+            rep.corr_break(f"_synthetic_partial is not the tree the model's symFwd builds: {ec.detail[:400]}", ec.info)
+        elif ec.verdict == "match":
+            rep.corr_checked += 1
+    b.run()
+    for c, r, i in rev:
+        if r[0] != "ok":
+            continue
+        toks = b[i].split(" ")[1:]
+        k = int(toks[0]); j = 1
+        model = {}
+        for _ in range(k):
+            name = toks[j]
+            tree, j = wire.parse_expr(toks, j + 1)
+            model[name] = tree
+        ok = set(model) == set(r[1]) and all(wire.tree_matches(model[n], r[1][n]) for n in model)
+        rep.count("raw-symbolic", "reverse:" + ("match" if ok else "mismatch"))
+        if ok:
+            rep.corr_checked += 1
+        else:
+            rep.corr_break("_synthetic_partials() differs from the model's syntheticPartials", dict(c, impl=repr(r[1])[:500], model=b[i][:500]))
 
 
 def attributable_to_k1(info: dict) -> bool:
